@@ -60,22 +60,23 @@ T("inverse_dihedral_onesite", f"""forall (cell : option RV) (mass : nat -> R) (p
 T("inverse_gyration", f"""forall (cell : option RV) (mass : nat -> R) (pos : RF) (ids : list nat) (fc : R),
   NoDup ids -> gyr_value Rops pos ids <> 0 ->
   {FT} (CGyration ids) ({AP} (CGyration ids) fc) = fc""", "exact inv_gyration.")
-T("inverse_rmsd", f"""forall (cell : option RV) (mass : nat -> R) (pos : RF) (ids : list nat) (refs : list RV) (center : option RV) (fc : R),
-  NoDup ids -> length refs = length ids -> rmsd_value Rops pos ids refs center <> 0 ->
-  (forall rc, center = Some rc -> vsum Rops refs = vscale Rops (ofnat Rops (length ids)) rc) ->
-  {FT} (CRmsd ids refs center) ({AP} (CRmsd ids refs center) fc) = fc""", "exact inv_rmsd.",
-  "rmsd without rotation; when the group is centred it must be centred on the centre of the component's own reference positions")
+T("inverse_rmsd", f"""forall (cell : option RV) (mass : nat -> R) (pos : RF) (ids : list nat) (refs : list RV) (extra : list (list RV)) (center : option RV) (fc : R),
+  NoDup ids -> (forall r, In r (refs :: extra) -> length r = length ids) ->
+  rmsd_value Rops pos ids (rmsd_best Rops pos ids refs extra center) center <> 0 ->
+  (forall rc, center = Some rc -> forall r, In r (refs :: extra) -> vsum Rops r = vscale Rops (ofnat Rops (length ids)) rc) ->
+  {FT} (CRmsd ids refs extra center) ({AP} (CRmsd ids refs extra center) fc) = fc""", "exact inv_rmsd.",
+  "rmsd without rotation, with any number of permuted copies of the reference (atomPermutation): whichever copy is the closest, gradients and\n   inverse gradients use the same one; when the group is centred it must be centred on the centre of the reference positions")
 T("inverse_eigenvector", f"""forall (cell : option RV) (mass : nat -> R) (pos : RF) (ids : list nat) (refs evec : list RV) (center : option RV) (fc : R),
   NoDup ids -> length evec = length ids -> norm2_sum Rops (eig_vec Rops evec) <> 0 ->
   {FT} (CEigenvector ids refs evec center) ({AP} (CEigenvector ids refs evec center) fc) = fc""", "exact inv_eigenvector.",
   "eigenvector without rotation (any centring): the centred vector must not be null")
 
-T("inverse_rmsd_rotated", f"""forall (cell : option RV) (mass : nat -> R) (pos : RF) (ids : list nat) (refs : list RV) (rotf : RF -> RM) (jdf : RF -> R) (fc : R),
-  NoDup ids -> length refs = length ids ->
+T("inverse_rmsd_rotated", f"""forall (cell : option RV) (mass : nat -> R) (pos : RF) (ids : list nat) (refs : list RV) (extra : list (list RV)) (rotf : RF -> RM) (jdf : RF -> R) (fc : R),
+  NoDup ids -> (forall r, In r (refs :: extra) -> length r = length ids) ->
   (forall v : RV, mvmul Rops (rotf pos) (mtvmul Rops (rotf pos) v) = v) ->
-  rmsdrot_value Rops pos ids refs (rotf pos) <> 0 ->
-  {FT} (CRmsdRot ids refs rotf jdf) ({AP} (CRmsdRot ids refs rotf jdf) fc) = fc""", "exact inv_rmsd_rot.",
-  "rotated frames (the default fit of rmsd / eigenvector): the rotation matrix used at the step is an input of the model; whenever it is\n   orthogonal (R R^T = 1), rotating the forces into the frame of the gradients (read_total_forces) inverts rotating the applied forces back")
+  rmsdrot_value Rops pos ids refs (rotf pos) (rmsdrot_best Rops pos ids refs extra (rotf pos)) <> 0 ->
+  {FT} (CRmsdRot ids refs extra rotf jdf) ({AP} (CRmsdRot ids refs extra rotf jdf) fc) = fc""", "exact inv_rmsd_rot.",
+  "rotated frames (the default fit of rmsd / eigenvector): the rotation matrix used at the step is an input of the model; whenever it is\n   orthogonal (R R^T = 1), rotating the forces into the frame of the gradients (read_total_forces) inverts rotating the applied forces back;\n   with atomPermutation copies as above")
 T("inverse_eigenvector_rotated", f"""forall (cell : option RV) (mass : nat -> R) (pos : RF) (ids : list nat) (refs evec : list RV) (rotf : RF -> RM) (jdf : RF -> R) (fc : R),
   NoDup ids -> length evec = length ids ->
   (forall v : RV, mvmul Rops (rotf pos) (mtvmul Rops (rotf pos) v) = v) ->
@@ -213,10 +214,10 @@ T("jacobian_closed_forms", f"""forall (cell : option RV) (mass : nat -> R) (pos 
   (forall g1 g2 g3 g4 os, cvc_jd {M} pos (CDihedral g1 g2 g3 g4 os) = 0) /\\
   (forall ids, gyr_value Rops pos ids <> 0 ->
      cvc_jd {M} pos (CGyration ids) = (3 * ofnat Rops (length ids) - 4) / cvc_value {M} pos (CGyration ids)) /\\
-  (forall ids refs, 0 < rmsd_value Rops pos ids refs None ->
-     cvc_jd {M} pos (CRmsd ids refs None) = (3 * ofnat Rops (length ids) - 1) / cvc_value {M} pos (CRmsd ids refs None)) /\\
-  (forall ids refs rc, 0 < rmsd_value Rops pos ids refs (Some rc) ->
-     cvc_jd {M} pos (CRmsd ids refs (Some rc)) = (3 * ofnat Rops (length ids) - 4) / cvc_value {M} pos (CRmsd ids refs (Some rc))) /\\
+  (forall ids refs extra, 0 < cvc_value {M} pos (CRmsd ids refs extra None) ->
+     cvc_jd {M} pos (CRmsd ids refs extra None) = (3 * ofnat Rops (length ids) - 1) / cvc_value {M} pos (CRmsd ids refs extra None)) /\\
+  (forall ids refs extra rc, 0 < cvc_value {M} pos (CRmsd ids refs extra (Some rc)) ->
+     cvc_jd {M} pos (CRmsd ids refs extra (Some rc)) = (3 * ofnat Rops (length ids) - 4) / cvc_value {M} pos (CRmsd ids refs extra (Some rc))) /\\
   (forall ids refs evec c, cvc_jd {M} pos (CEigenvector ids refs evec c) = 0)""",
   """intros cell mass pos. repeat split.
   - intros g1 g2 os H. cbn [cvc_jd cvc_value]. unfold inv_or_zero. rs.
@@ -225,8 +226,8 @@ T("jacobian_closed_forms", f"""forall (cell : option RV) (mass : nat -> R) (pos 
     destruct (Reqb' (dxy_value Rops cell mass pos gm gr gr2 ax) 0) eqn:E; [apply Reqb_true in E; contradiction|reflexivity].
   - intros ids H. cbn [cvc_jd cvc_value]. unfold inv_or_zero. rs.
     destruct (Reqb' (gyr_value Rops pos ids) 0) eqn:E; [apply Reqb_true in E; contradiction|reflexivity].
-  - intros ids refs H. cbn [cvc_jd cvc_value]. rs. apply Rltb_true in H. rewrite H. f_equal. ring.
-  - intros ids refs rc H. cbn [cvc_jd cvc_value]. rs. apply Rltb_true in H. rewrite H. f_equal. ring.""",
+  - intros ids refs extra H. cbn [cvc_jd cvc_value] in *. rs. apply Rltb_true in H. rewrite H. f_equal. ring.
+  - intros ids refs extra rc H. cbn [cvc_jd cvc_value] in *. rs. apply Rltb_true in H. rewrite H. f_equal. ring.""",
   "the Jacobian derivative jd of each component (the documented Jacobian term is kT * jd); angle: pi/180 * cot(theta)")
 
 T("jacobian_angle", f"""forall (cell : option RV) (mass : nat -> R) (pos : RF) (g1 g2 g3 : RG) (os : bool),
